@@ -31,6 +31,10 @@ def run(ctx):
     r3_siblings(ctx)
     r4_comments(ctx)
     r5_monophony(ctx)
+    from . import c11
+    ctx.alias = {'R5': 'R3'}
+    c11.r5_selection(ctx)     # the closure of the filter: valid(include=filter) = include categories with all their descendants
+    ctx.alias = {}
 
 
 # --------------------------------------------------------------------------- R1
